@@ -46,10 +46,15 @@ def make_t3(envs):
         if en.startswith("bd_str") or en.startswith("bd_cho"):
             hx = f["_hex"]
             s = bytes.fromhex(hx) if hx != "-" else b""
+            base = 0
+            if f["_form"] == "span":
+                s, base = s[f["_a"]:f["_b"]], f["_a"]
+            elif f["_form"] == "pos":
+                s, base = s[f["_a"]:], f["_a"]
             o = counting_oracle(env, int(sn[1:]), s)
             if o is not None:
                 if o[0] == "ok":
-                    if not f["P"].startswith("ok@%d=" % o[1]):
+                    if not f["P"].startswith("ok@%d=" % (o[1] + base)):
                         return "counting spec: %d units, offset %d, but parse gives %s" % (o[2], o[1], f["P"][:60])
                 elif not f["P"].startswith("fail"):
                     return "counting spec: only %d units (< MIN) but parse gives %s" % (o[2], f["P"][:60])
